@@ -75,6 +75,7 @@ func (w *World) NewNode(name string, mtu uint32, a4, a6 tcpip.Address, peer int,
 	must(s.CreateNIC(1, l.id), "CreateNIC")
 	must(s.AddAddress(1, ipv4.ProtocolNumber, a4), "AddAddress v4")
 	must(s.AddAddress(1, ipv6.ProtocolNumber, a6), "AddAddress v6")
+	l.Addrs = append(l.Addrs, a4, a6)
 	if o.Resolution {
 		must(s.AddAddress(1, arp.ProtocolNumber, arp.ProtocolAddress), "AddAddress arp")
 	}
